@@ -1,12 +1,20 @@
-#!/bin/sh
-# usage: tools/tryseed.sh <patch.diff> <ID> [<ID>...]   -- applies the patch to /repo, runs the quick checks, reverts.
-P=$1; shift
-cd /repo || exit 2
-git status --porcelain | grep -q . && { echo "/repo not clean"; exit 2; }
-git apply "$P" || { echo "patch does not apply"; exit 2; }
+#!/bin/bash
+# usage: tools/tryseed.sh <patch.diff> <ID> [<ID>...]
+# Applies the patch to a scratch worktree of /repo (never to /repo itself), runs the quick tier of the
+# given checks against it through a scratch copy of the harness, prints exit codes, and reverts.
+P=$(readlink -f "$1"); shift
+S=${TRYSEED_SCRATCH:-/tmp/ts}
+mkdir -p $S/out
+if [ ! -d $S/repo ]; then git -C /repo worktree add -q --detach $S/repo HEAD || exit 2; fi
+git -C $S/repo checkout -q -- . && git -C $S/repo checkout -q --detach "$(git -C /repo rev-parse HEAD)" || exit 2
+rsync -a --delete /verif/harness/ $S/harness/
+sed -i "s#=> /repo#=> $S/repo#" $S/harness/go.mod
+git -C $S/repo apply "$P" || { echo "patch does not apply"; exit 2; }
 cd /verif
+pids=()
 for id in "$@"; do
-  ./check "$id" --tier quick >/tmp/tryseed.$id.log 2>&1; rc=$?
-  echo "== $id exit=$rc $(grep -E '^VIOLATION' /tmp/tryseed.$id.log | head -1)"
+  ( VERIF_REPO=$S/repo VERIF_HARNESS_DIR=$S/harness VERIF_OUT_DIR=$S/out ./check "$id" --tier quick >$S/out/$id.log 2>&1; rc=$?
+    echo "== $id exit=$rc $(grep -E '^VIOLATION' $S/out/$id.log | head -1 | sed 's#replay=.*/##')" ) &
 done
-git -C /repo checkout -- . ; git -C /repo status --short
+wait
+git -C $S/repo checkout -q -- .
